@@ -106,7 +106,7 @@ __CPROVER_ensures(CVP_OFF(d, b, d + 1) == CVP_SIZE(d, b));
 
 #define CVP_L_MONO_HYP(d, b, r1, r2) (CVP_COV_DOM(d, b) && 1 <= (r1) && (r1) <= (r2) && (r2) <= (d) + 1)
 #define CVP_L_MONO_CONCL(d, b, r1, r2)                                                                         \
-  (CVP_OFF(d, b, r1) <= CVP_OFF(d, b, r2) &&                                                                   \
+  (0 <= CVP_OFF(d, b, r1) && CVP_OFF(d, b, r1) <= CVP_OFF(d, b, r2) &&                                          \
    ((r1) < (r2) ==> CVP_OFF(d, b, r1) + CVP_LEN(d, b, r1) <= CVP_OFF(d, b, r2)))
 void cvp_lemma_mono(int d, int b, int r1, int r2)
 __CPROVER_requires(GV_MACHINE_BOUND(d <= 32768))
